@@ -46,9 +46,9 @@ Definition class_of (r : result) : N :=
 Definition body_of (r : result) : str := match r with RContent b _ => b | _ => [] end.
 
 (* the data source of the C04 runs: every id exists, its data is empty *)
-Definition T_id (v : str) : str := v.
+Definition T_id (v : str) : option str := Some v.
 Definition FS_none (k v : str) : fsres := FNone.
-Definition GD_some (i : str) : option str := Some [].
+Definition GD_some (i : str) : gdres := GOk [].
 
 Definition eff_uri (k : case) : str := if k_tftp k then norm_name (k_uri k) else k_uri k.
 
